@@ -28,7 +28,9 @@ directly with a drawn mixture (authentic signed values of several versions, unsi
 data, bumped version, foreign public key, broken signature - and undecodable bytes). What the servers really
 offered is parsed from the find-responses on the wire and classified by an independent parser + the signature
 primitive of the crypto extension; the reported ``(data, public_key)`` pairs must verify, be the highest version
-offered for that key, and every signer with an authentic offer must be reported exactly once.
+offered for that key, and every signer with an authentic offer must be reported exactly once. A lookup that raises
+(the pinned decoder raises on undecodable value bytes, e.g. an empty value) reports nothing and therefore attributes
+nothing: it is counted (``R:lookup_raised_*``), not flagged - availability is outside the statement.
 
 Part M (pure ``Storage`` machine). put / get / paged get / items_older_than / clean / advance on the real ``Storage``
 under virtual time against a dict model (bounded-exhaustive over a small alphabet + Hypothesis).
@@ -397,6 +399,13 @@ class WriteRun:
         return {bytes(k): [(n.public_key.key_to_bin(), tuple(n.address)) for n in nodes]
                 for k, nodes in store.items() if nodes}
 
+    @staticmethod
+    def pshow(snap: dict) -> str:
+        def who(pk: bytes) -> str:
+            return next((f"k{i}" for i in range(3) if signer_pk(i) == pk), hx(pk))
+        return "{" + ", ".join(f"{hx(k)}: {[who(pk) + '@' + '%s:%d' % tuple(ad[:2]) for pk, ad in v]}"
+                               for k, v in sorted(snap.items())) + "}"
+
     def by_id(self, snap: dict) -> dict:
         out = {}
         for skey, vals in snap.items():
@@ -428,7 +437,8 @@ class WriteRun:
                                   f"{self.diff(self.model, now)}")
         pnow = self.peer_snap()
         if pnow != self.pmodel and not self.peer_only_removed(self.pmodel, pnow):
-            self.fail("S1", site + ":peer_store", f"{what}: the peer store changed: {self.pmodel} -> {pnow}")
+            self.fail("S1", site + ":peer_store", f"{what}: the peer store changed: {self.pshow(self.pmodel)} -> "
+                                                  f"{self.pshow(pnow)}")
         self.pmodel = pnow
 
     @staticmethod
@@ -799,7 +809,7 @@ class WriteRun:
             self.count("store_peer:rejected")
             if pafter != pbefore:
                 self.fail("S1", site, f"store-peer-request from k{k}@#{a} {why}, yet the peer store changed: "
-                                      f"{pbefore} -> {pafter}")
+                                      f"{self.pshow(pbefore)} -> {self.pshow(pafter)}")
             if resp:
                 self.fail("S1", site + ":response", f"store-peer-request from k{k}@#{a} {why}, yet T answered with a "
                                                     f"store-peer-response")
@@ -811,13 +821,14 @@ class WriteRun:
             pk = signer_pk(k)
             if not any(e[0] == pk for e in pafter.get(target, [])):
                 self.fail("S2", "on_store_peer_request:not_stored", f"accepted store-peer-request of k{k}: peer not in "
-                                                                    f"store[{hx(target)}] = {pafter.get(target)}")
+                                                                    f"store[{hx(target)}]: {self.pshow(pafter)}")
             for tk in sorted(set(pbefore) | set(pafter)):
                 added = [e for e in pafter.get(tk, []) if e not in pbefore.get(tk, [])]
                 gone = [e for e in pbefore.get(tk, []) if e not in pafter.get(tk, [])]
                 if gone or [e for e in added if not (tk == target and e[0] == pk and e[1] == tuple(self.addr[a]))]:
                     self.fail("S1", "on_store_peer_request:collateral", f"accepted store-peer-request of k{k}@#{a} "
-                                                                        f"changed store[{hx(tk)}]: +{added} -{gone}")
+                                                                        f"changed store[{hx(tk)}]: "
+                                                                        f"{self.pshow(pbefore)} -> {self.pshow(pafter)}")
         self.pmodel = pafter
         self.unchanged("on_store_peer_request", "after a store-peer-request")
 
